@@ -87,9 +87,9 @@ static void do_dec(char *args){
 }
 
 static void do_vf(char *args){
-  char *save; int seekable=atoi(strtok_r(args," ",&save)); int kind=atoi(strtok_r(NULL," ",&save)); int persist=atoi(strtok_r(NULL," ",&save));
+  char *save; char *t0=strtok_r(args," ",&save); int seekable=atoi(t0); char *mrp=strchr(t0,':'); long maxread=mrp?atol(mrp+1):0; int kind=atoi(strtok_r(NULL," ",&save)); int persist=atoi(strtok_r(NULL," ",&save));
   long k=atol(strtok_r(NULL," ",&save)); char *hex=strtok_r(NULL," ",&save); long n; unsigned char *file=vc_unhex(hex,&n);
-  memsrc ms={0}; ms.b=file; ms.n=n; ms.seekable=seekable; ms.fault_kind=kind; ms.fault_persist=persist; ms.fault_at=k;
+  memsrc ms={0}; ms.b=file; ms.n=n; ms.seekable=seekable; ms.maxread=maxread; ms.fault_kind=kind; ms.fault_persist=persist; ms.fault_at=k;
   OggVorbis_File vf; ov_callbacks cb={ms_read,seekable?ms_seek:NULL,ms_close,seekable?ms_tell:NULL};
   int orc=ov_open_callbacks(&ms,&vf,NULL,0,cb);
   printf("vf open %d\n",orc);
